@@ -297,6 +297,41 @@ example : substText [⟨"i", "if".toList, false⟩, ⟨"a", "x".toList, false⟩
 example : substText [⟨"g", "z".toList, true⟩, ⟨"a", "x".toList, false⟩] "a g a > g".toList
     = "x z a > z".toList := by decide +kernel
 
+/-! ## the guard is about NAMES: alias table changing while a replacement is being read -/
+
+/-- ★ `guard_by_name`: a word whose first character's origin chain contains the name `n` is never replaced
+    by alias `n` — whatever the current table holds for `n` (same definition, a redefinition under the same
+    name, a different `global` flag, or nothing). -/
+theorem guard_by_name (T : Table) (before : List SChar) (c0 : SChar) (n : String) (asg : Bool)
+    (sub : Option Bool) (h : c0.isAliasFor n = true) :
+    eligible T before c0 (.word (some n) asg) sub = none :=
+  no_self_eligible T before c0 n asg sub h
+
+/-- Consequently the decision is the same for any two tables. -/
+theorem guard_table_independent (T₁ T₂ : Table) (before : List SChar) (c0 : SChar) (n : String) (asg : Bool)
+    (sub : Option Bool) (h : c0.isAliasFor n = true) :
+    eligible T₁ before c0 (.word (some n) asg) sub = eligible T₂ before c0 (.word (some n) asg) sub := by
+  rw [guard_by_name T₁ _ _ _ _ _ h, guard_by_name T₂ _ _ _ _ _ h]
+
+/-- ★ `no_self_resubstitution_lines`: in the line-by-line machine (the table is updated by `alias`/`unalias`
+    after every complete command line, the buffer keeps its origin chains) no chain ever contains a name
+    twice, for every initial table, every line and every number of steps. -/
+theorem no_self_resubstitution_lines (T : Table) (line : List Char) (f : Nat) :
+    ∀ c ∈ (lrun f { T := T, m := init line }).1.m.pre ++ (lrun f { T := T, m := init line }).1.m.rest,
+      c.chain.Nodup := by
+  apply nodup_lrun
+  intro c hc
+  simp only [init, List.nil_append, plain, List.mem_map] at hc
+  obtain ⟨_, _, rfl⟩ := hc
+  exact List.nodup_nil
+
+/-- non-vacuity: `a` redefines itself on the first line of its own replacement; the `a` on the second line is
+    left alone although the table now holds a different `a` (the seeded `Rc::ptr_eq` guard substitutes it). -/
+example : ((lrun 1000 { T := [⟨"a", "alias a=REDEF\na second".toList, false⟩], m := init "a".toList }).1.m.text)
+    = "alias a=REDEF\na second".toList := by decide +kernel
+example : ((lrun 1000 { T := [⟨"a", "alias a=REDEF\na second".toList, false⟩], m := init "a".toList }).1.T.map
+    (fun a => (a.name, String.ofList a.value))) = [("a", "REDEF")] := by decide +kernel
+
 /-! ## ☆ Model = Spec (partial) -/
 
 /- Full statement (NOT proved):
